@@ -306,7 +306,7 @@ func judge(fatalf func(string, ...any), s respSpec, r reqSpec, w wire, plain wir
 				}
 				continue
 			}
-			if h == "Content-Type" && s.contentType == "" && (b == "" || a == "" || s.typeUnknown) {
+			if h == "Content-Type" && (s.typeUnknown || s.contentType == "" && (b == "" || a == "")) {
 				continue // the upstream sent no type at all (it flushed first): whether the last hop's server sniffs one depends on when the first bytes arrive
 			}
 			if a != b {
